@@ -91,6 +91,34 @@ fn handover_exec(case: &(usize, usize, Option<usize>), ctx: &WorkerCtx) -> ExecR
     })
 }
 
+/// The writing side over a socket: `send_raw` for a sequence of messages; the peer's bytes must be exactly the one-shot framing.
+fn send_raw_exec(lens: &Vec<usize>, ctx: &WorkerCtx) -> ExecResult {
+    let lens = lens.clone();
+    run_rt(async move {
+        let mut res = ExecResult::default();
+        let mut cw = match conn_world(ctx, flags_default(), flags_default()).await { Ok(x) => x, Err(e) => { res.violations.push(("could not establish the connection under a conforming peer".into(), json!({"error": e}))); return res; } };
+        cw.w.gates.set_active(&[]);
+        let no_probe = || 0u64;
+        let mut want: Vec<u8> = vec![];
+        let start = cw.peer.dist_off;
+        for (i, &l) in lens.iter().enumerate() {
+            let m: Vec<u8> = (0..l).map(|j| ((i * 31 + j * 7 + 1) % 256) as u8).collect();
+            if let Err(e) = cw.conn.send_raw(&m).await { res.violations.push(("send_raw failed on a connected connection".into(), json!({"length": l, "error": e.to_string()}))); return res; }
+            want.extend_from_slice(&frame(&m, 4));
+            cw.w.settle(&mut cw.peer, &no_probe).await;
+        }
+        cw.w.settle(&mut cw.peer, &no_probe).await;
+        let got = &cw.peer.log[start..];
+        if got != &want[..] {
+            let first_diff = got.iter().zip(want.iter()).position(|(a, b)| a != b).unwrap_or(got.len().min(want.len()));
+            res.violations.push(("bytes written by send_raw differ from the one-shot framing of the same messages".into(), json!({"message_lengths": lens, "bytes_written": got.len(), "bytes_expected": want.len(), "first_difference_at": first_diff})));
+        }
+        res.steps = lens.len() as u64;
+        res.outcome = format!("send_raw {} messages", lens.len());
+        res
+    })
+}
+
 pub fn run(rep: &Report) -> Value {
     let thorough = rep.thorough();
     let seqs: Vec<Vec<usize>> = vec![vec![0], vec![1], vec![0, 0], vec![2, 0, 1], vec![1, 3], vec![5], vec![0, 4, 0]];
@@ -105,14 +133,16 @@ pub fn run(rep: &Report) -> Value {
     // every position of a two-frame stream as the boundary between what rides with the acknowledgement and what follows
     for cut in 0..=96usize { hand.push((1, 1, Some(cut))); hand.push((1, 0, Some(cut))); }
     let st_h: Stats = for_all(rep, "frames coalesced with the handshake acknowledgement", &hand, |c, ctx| handover_exec(c, ctx));
+    let wlens: Vec<Vec<usize>> = vec![vec![0, 1, 2, 0, 255, 256], vec![65_535, 65_536, 65_537, 3], vec![200_000, 0, 1 << 20, 5], vec![70_000, 70_001]];
+    let st_w: Stats = for_all(rep, "send_raw against the one-shot framing", &wlens, |c, ctx| send_raw_exec(c, ctx));
     json!({
-        "states": st.executions + st_h.executions,
-        "transitions": st.transitions + st_h.transitions,
-        "traces_validated_against_impl": st.executions + st_h.executions,
+        "states": st.executions + st_h.executions + st_w.executions,
+        "transitions": st.transitions + st_h.transitions + st_w.transitions,
+        "traces_validated_against_impl": st.executions + st_h.executions + st_w.executions,
         "samples": [{"message_lengths": [2, 0, 1], "cuts": [3, 9]}, {"message_lengths": [0, 4, 0], "cuts": [1]}],
         "exhaustive": true,
         "distinct_outcomes": st.distinct_outcomes,
         "unstable_failures_not_reported": st.unstable,
-        "rule": "the connection's socket-backed framed reader (receive_raw) fed 7 short frame sequences (ticks, 1..5-byte messages) under every single cut and every pair of cuts of the byte stream (pairs thinned to a third for streams longer than 10 bytes in quick), the peer settling between chunks, then a truncated frame followed by close; plus 8 executions in which the peer's first 0, 1, 2 or 5 frames and half of one more share a TCP segment with the handshake acknowledgement and are read through receive_raw or through the read half handed over by take_read_half, and 194 in which a two-frame stream is divided at every byte position between the acknowledgement's segment and a later one",
+        "rule": "the connection's socket-backed framed reader (receive_raw) fed 7 short frame sequences (ticks, 1..5-byte messages) under every single cut and every pair of cuts of the byte stream (pairs thinned to a third for streams longer than 10 bytes in quick), the peer settling between chunks, then a truncated frame followed by close; plus 8 executions in which the peer's first 0, 1, 2 or 5 frames and half of one more share a TCP segment with the handshake acknowledgement and are read through receive_raw or through the read half handed over by take_read_half, and 194 in which a two-frame stream is divided at every byte position between the acknowledgement's segment and a later one; and four send_raw sequences with message lengths 0..2^20 (around 255/256 and 65535/65536/65537) whose bytes on the wire must equal the one-shot framing",
     })
 }
